@@ -86,6 +86,13 @@ Definition insert_vars (c:ctx) (vs:list ctx) : res (list ctx) :=
   | _ => match vs with m::r => Ok ((c ++ m)::r) | [] => Panic end
   end.
 
+(* n < 2^k, computed without building 2^k (list bounds can be large; the numbers are unary after extraction) *)
+Fixpoint lt_pow2 (k n:nat) : bool :=
+  match k with
+  | 0 => Nat.eqb n 0
+  | S k' => match n with 0 => true | _ => lt_pow2 k' (Nat.div2 n) end
+  end.
+
 (* keys of an association list are pairwise distinct *)
 Fixpoint nodup_keys (c:ctx) : bool :=
   match c with [] => true | (x,_)::c' => match lookupN c' x with Some _ => false | None => nodup_keys c' end end.
@@ -362,7 +369,7 @@ Fixpoint analyze_expr (e:pexpr) (t:ty) (s:st) {struct e} : res (expr*st) :=
       match t with
       | TList a k =>
           match k with 0 => Err (* bound 2^0 is not a NonZeroPow2Usize *) | _ =>
-          if Nat.leb (2^k) (length es) then Err else            (* bound.get() <= list.len() *)
+          if negb (lt_pow2 k (length es)) then Err else          (* bound.get() <= list.len() *)
           rbind (map2_st (fun e0 t0 s0 => analyze_expr e0 t0 s0) es (repeat a (length es)) s) (fun '(es', s1) =>
           Ok (EList t es', s1))
           end
